@@ -347,7 +347,16 @@ func (im *Impl) Exec(line string) (out string) {
 	case "setrev":
 		return res(im.S.SetRevisionCounter(int64(atoi(w[1]))))
 	case "ckpt":
-		return res(im.S.SetCheckpoint(w[1]))
+		// request lines name the add-time snapshots of earlier rebuilds by their aliases; the replica
+		// must record the real disk name, as the controller would
+		arg := w[1]
+		for a, r := range im.alias {
+			if arg == a {
+				arg = r
+			}
+			arg = strings.ReplaceAll(arg, "volume-snap-"+a+".img", "volume-snap-"+r+".img")
+		}
+		return res(im.S.SetCheckpoint(arg))
 	case "rbbegin":
 		has := func(f string) bool {
 			for _, x := range w[2:] {
